@@ -4,6 +4,7 @@ import ClaripyProofs.Lemmas.VSA.Cmp
 import ClaripyProofs.Lemmas.VSA.NotExt
 import ClaripyProofs.Lemmas.VSA.ShiftSound
 import ClaripyProofs.Lemmas.VSA.Signed
+import ClaripyProofs.Lemmas.VSA.Extract
 /-!
 # C21 — strided-interval transfer functions are sound
 
@@ -130,6 +131,21 @@ theorem C21_lshr_sound (a amt r : SI) (ha : a.WF) (hab : a.bottom = false) (hamt
 theorem C21_shl_sound (a amt r : SI) (ha : a.WF) (hab : a.bottom = false) (hamt : amt.WF) (h : a.lshift amt = .ok r) :
     (r.WF ∧ r.bits = a.bits) ∧ ∀ x y, a.mem x → amt.mem y → r.mem (Conc.shl a.bits x y) :=
   shl_sound a amt r ha hab hamt h
+
+/-- `cast_low(tok)`: the low `tok` bits of every member (all six branches of the code) -/
+theorem C21_cast_low_sound (a r : SI) (tok : Nat) (ha : a.WF) (ht : 0 < tok) (h : a.castLow tok = .ok r) :
+    (r.WF ∧ r.bits = tok) ∧ ∀ x, a.mem x → r.mem (x % 2 ^ tok) :=
+  castLow_sound a r tok ha ht h
+
+/-- `extract(high, low)` = logical right shift by `low`, then `cast_low` -/
+theorem C21_extract_sound (a r : SI) (hi lo : Nat) (ha : a.WF) (hab : a.bottom = false) (hlo : lo ≤ hi) (hhi : hi < a.bits)
+    (h : a.extract hi lo = .ok r) :
+    (r.WF ∧ r.bits = hi + 1 - lo) ∧ ∀ x, a.mem x → r.mem (Conc.extract hi lo x) :=
+  extract_sound a r hi lo ha hab hlo hhi h
+
+/-- non-vacuity: bits 2..1 of a wrapping interval with an odd stride -/
+example : (SI.new 4 3 13 3).mem 13 ∧ (∃ r, (SI.new 4 3 13 3).extract 2 1 = .ok r ∧ r.mem 2 ∧ r.bits = 2) := by
+  refine ⟨by decide, _, rfl, by decide, by decide⟩
 
 /-- non-vacuity: a wrapping strided operand shifted by the amounts {1, 2}; a wrapping dividend -/
 example : (SI.new 4 3 13 3).WF ∧ (SI.new 4 1 1 2).WF ∧ (SI.new 4 3 13 3).mem 0 ∧ (SI.new 4 1 1 2).mem 2 ∧
